@@ -31,7 +31,7 @@ def tree_hash():
         h.update(b'\0')
     # the machinery itself is part of the key: a new translator / prelude invalidates cached results
     for f in sorted(glob.glob(os.path.join(VERIF, 'xlate', 'src', '*.rs'))) + sorted(glob.glob(os.path.join(VERIF, 'harness', 'src', '*.rs'))) \
-            + sorted(glob.glob(os.path.join(TFV, 'TFV', 'Prelude', '*.lean'))) + [MODEL_DEFS, os.path.join(TFV, 'TFV', 'Extra.lean'), os.path.join(TFV, 'Main.lean')]:
+            + sorted(glob.glob(os.path.join(TFV, 'TFV', 'Prelude', '*.lean'))) + [MODEL_DEFS, os.path.join(TFV, 'TFV', 'Extra.lean'), os.path.join(TFV, 'Main.lean'), os.path.join(TFV, 'TFV', 'Hand', 'Serde.lean')]:
         with open(f, 'rb') as fh:
             h.update(fh.read())
     return h.hexdigest()[:16]
@@ -172,6 +172,7 @@ def build_gen_driver(hdir, gdir):
     shutil.copy(os.path.join(gdir, 'Gen.lean'), os.path.join(proj, 'TFV', 'Gen.lean'))
     shutil.copy(os.path.join(gdir, 'Dispatch.lean'), os.path.join(proj, 'TFV', 'Dispatch.lean'))
     shutil.copy(os.path.join(TFV, 'TFV', 'Extra.lean'), os.path.join(proj, 'TFV', 'Extra.lean'))
+    shutil.copytree(os.path.join(TFV, 'TFV', 'Hand'), os.path.join(proj, 'TFV', 'Hand'), dirs_exist_ok=True)
     shutil.copy(os.path.join(TFV, 'Main.lean'), os.path.join(proj, 'Main.lean'))
     with open(os.path.join(proj, 'lakefile.toml'), 'w') as f:
         f.write('name = "TFVGen"\nversion = "0.1.0"\ndefaultTargets = ["driver"]\n\n[[lean_lib]]\nname = "TFV"\n\n[[lean_exe]]\nname = "driver"\nroot = "Main"\n')
@@ -179,6 +180,17 @@ def build_gen_driver(hdir, gdir):
     if rc != 0:
         return None, out[-3000:]
     return os.path.join(proj, '.lake', 'build', 'bin', 'driver'), ''
+
+def ensure_serde(st):
+    """third harness build (serde feature), only needed by C20; cached beside the others"""
+    if st.get('harness_serde') and os.path.exists(st['harness_serde']):
+        return
+    with Lock(os.path.join(BUILD, 'shared.lock')):
+        hb, err = build_harness(st['dir'], os.path.join(st['dir'], 'gen_std', 'dispatch.rs'), 'serde', ['--features', 'std,serde'])
+        st['harness_serde'] = hb
+        if hb is None:
+            st['serde_error'] = err
+        json.dump(st, open(os.path.join(st['dir'], 'shared.json'), 'w'), indent=1)
 
 def prune_old(keep):
     try:
